@@ -217,14 +217,31 @@ Qed.
 
 Lemma subdir_upd : forall i j f c,
   subdir i (upd_subdir j f c) =
-  if Nat.eqb i j && Nat.ltb i (length (subdirs c)) then f (subdir i c) else subdir i c.
-Proof. intros. unfold subdir, upd_subdir. simpl. apply nth_upd_nth. Qed.
+  if Nat.eqb i j && present i c then f (subdir i c) else subdir i c.
+Proof.
+  intros. unfold subdir, present, upd_subdir. simpl. rewrite nth_upd_nth.
+  destruct (Nat.eqb i j); simpl.
+  - destruct (Nat.ltb i (length (subdirs c))) eqn:E.
+    + destruct (nth i (subdirs c) None); reflexivity.
+    + apply Nat.ltb_ge in E. rewrite nth_overflow by exact E. reflexivity.
+  - reflexivity.
+Qed.
+
+Lemma present_upd : forall i j f c, present i (upd_subdir j f c) = present i c.
+Proof.
+  intros. unfold present, upd_subdir. simpl. rewrite nth_upd_nth.
+  destruct (Nat.eqb i j && Nat.ltb i (length (subdirs c))); [|reflexivity].
+  destruct (nth i (subdirs c) None); reflexivity.
+Qed.
+
+Lemma absent_empty : forall i c, present i c = false -> subdir i c = [].
+Proof. intros i c. unfold present, subdir. destruct (nth i (subdirs c) None); [discriminate|reflexivity]. Qed.
 
 Lemma subdir_upd_pres : forall (P : list obj -> Prop) i j f c,
   P (subdir i c) -> (forall l, P l -> P (f l)) -> P (subdir i (upd_subdir j f c)).
 Proof.
   intros P i j f c H Hf. rewrite subdir_upd.
-  destruct (Nat.eqb i j && Nat.ltb i (length (subdirs c))); auto.
+  destruct (Nat.eqb i j && present i c); auto.
 Qed.
 
 (* establishing Q on the updated subdirectory from a fact R about its previous contents *)
@@ -232,8 +249,8 @@ Lemma subdir_upd_est : forall (Q R : list obj -> Prop) i f c,
   Q [] -> R (subdir i c) -> (forall l, R l -> Q (f l)) -> Q (subdir i (upd_subdir i f c)).
 Proof.
   intros Q R i f c Q0 HR Hf. rewrite subdir_upd. rewrite Nat.eqb_refl. simpl.
-  destruct (Nat.ltb i (length (subdirs c))) eqn:E; [auto|].
-  unfold subdir. rewrite nth_overflow; [exact Q0|]. apply Nat.ltb_ge in E. exact E.
+  destruct (present i c) eqn:E; [auto|].
+  rewrite absent_empty by exact E. exact Q0.
 Qed.
 
 Lemma In_upd_nth : forall A (f : A -> A) l j x,
@@ -252,7 +269,8 @@ Lemma dir_ok_subdir : forall c i, dir_ok c -> objs_ok (subdir i c).
 Proof.
   intros c i H o Ho. unfold subdir in Ho.
   destruct (Nat.ltb i (length (subdirs c))) eqn:E.
-  - apply Nat.ltb_lt in E. eapply H; [apply nth_In; exact E|exact Ho].
+  - apply Nat.ltb_lt in E. destruct (nth i (subdirs c) None) as [l|] eqn:En; [|contradiction].
+    eapply H; [|exact Ho]. rewrite <- En. apply nth_In. exact E.
   - apply Nat.ltb_ge in E. rewrite nth_overflow in Ho by exact E. contradiction.
 Qed.
 
@@ -260,15 +278,16 @@ Lemma dir_ok_upd : forall c j f, dir_ok c -> (forall l, objs_ok l -> objs_ok (f 
   dir_ok (upd_subdir j f c).
 Proof.
   intros c j f H Hf l o Hl Ho. unfold upd_subdir in Hl. simpl in Hl.
-  destruct (In_upd_nth _ _ _ _ _ Hl) as [H1|(y & H1 & ->)].
+  destruct (In_upd_nth _ _ _ _ _ Hl) as [H1|(y & H1 & Hy)].
   - eapply H; eassumption.
-  - apply (Hf y); [|exact Ho]. intros o' Ho'. eapply H; eassumption.
+  - destruct y as [ly|]; [|discriminate]. simpl in Hy. inversion Hy; subst.
+    apply (Hf ly); [|exact Ho]. intros o' Ho'. eapply H; eassumption.
 Qed.
 
-Lemma nth_trim_subdirs : forall (f : list obj -> list obj) k l i, f [] = [] ->
-  nth i (map f (firstn k l) ++ skipn k l) [] = if Nat.ltb i k then f (nth i l []) else nth i l [].
+Lemma nth_map_firstn_skipn : forall A (f : A -> A) (d : A) k l i, f d = d ->
+  nth i (map f (firstn k l) ++ skipn k l) d = if Nat.ltb i k then f (nth i l d) else nth i l d.
 Proof.
-  intros f k. induction k as [|k IH]; intros l i Hf.
+  intros A f d k. induction k as [|k IH]; intros l i Hf.
   - simpl. reflexivity.
   - destruct l as [|x r].
     + simpl. destruct i; destruct (Nat.ltb _ _); auto.
@@ -277,11 +296,21 @@ Qed.
 
 Lemma subdir_trim : forall now c i,
   subdir i (trim now c) =
-  if trim_due now (trimtxt c) && Nat.ltb i (Z.to_nat trim_subdir_count)
+  if trim_due now (read_record c) && Nat.ltb i (Z.to_nat trim_subdir_count)
   then trim_subdir (trim_cutoff now) (subdir i c) else subdir i c.
 Proof.
-  intros now c i. unfold trim. destruct (trim_due now (trimtxt c)); [|reflexivity].
-  unfold subdir. simpl. unfold trim_subdirs. rewrite nth_trim_subdirs by reflexivity. reflexivity.
+  intros now c i. unfold trim. destruct (trim_due now (read_record c)); [|reflexivity].
+  unfold subdir. cbn [subdirs andb]. unfold trim_subdirs. rewrite nth_map_firstn_skipn by reflexivity.
+  destruct (Nat.ltb i (Z.to_nat trim_subdir_count)); [|reflexivity].
+  destruct (nth i (subdirs c) None); reflexivity.
+Qed.
+
+Lemma present_trim : forall now c i, present i (trim now c) = present i c.
+Proof.
+  intros now c i. unfold trim. destruct (trim_due now (read_record c)); [|reflexivity].
+  unfold present. cbn [subdirs]. unfold trim_subdirs. rewrite nth_map_firstn_skipn by reflexivity.
+  destruct (Nat.ltb i (Z.to_nat trim_subdir_count)); [|reflexivity].
+  destruct (nth i (subdirs c) None); reflexivity.
 Qed.
 
 Lemma In_trim_subdir : forall cutoff l o,
@@ -293,7 +322,7 @@ Qed.
 Lemma subdir_trim_sub : forall now c i o, In o (subdir i (trim now c)) -> In o (subdir i c).
 Proof.
   intros now c i o. rewrite subdir_trim.
-  destruct (trim_due now (trimtxt c) && Nat.ltb i (Z.to_nat trim_subdir_count)); [|auto].
+  destruct (trim_due now (read_record c) && Nat.ltb i (Z.to_nat trim_subdir_count)); [|auto].
   rewrite In_trim_subdir. tauto.
 Qed.
 
@@ -301,7 +330,7 @@ Lemma subdir_trim_keep : forall now c i o, In o (subdir i c) ->
   trim_removes (trim_cutoff now) o = false -> In o (subdir i (trim now c)).
 Proof.
   intros now c i o Ho Hk. rewrite subdir_trim.
-  destruct (trim_due now (trimtxt c) && Nat.ltb i (Z.to_nat trim_subdir_count)); [|auto].
+  destruct (trim_due now (read_record c) && Nat.ltb i (Z.to_nat trim_subdir_count)); [|auto].
   rewrite In_trim_subdir. tauto.
 Qed.
 
@@ -360,16 +389,17 @@ Section Track.
   Proof.
     intros u' nm d l Hc H o Ho. unfold put_file in Ho. destruct (has_name nm l).
     - apply in_map_iff in Ho. destruct Ho as (x & <- & Hx).
-      destruct (on_name_cases nm (fun o0 => match okind_of o0 with KFile => mkObj nm u' d KFile | _ => o0 end) x)
-        as [->|[_ ->]]; [apply H; exact Hx|].
-      destruct (okind_of x); try (apply H; exact Hx). simpl. apply clock_ns_ok. exact Hc.
+      destruct (on_name_cases nm (put_over u' nm d) x) as [->|[_ ->]]; [apply H; exact Hx|].
+      unfold put_over. destruct (file_like (okind_of x)); [|apply H; exact Hx].
+      simpl. apply clock_ns_ok. exact Hc.
     - apply in_app_or in Ho. destruct Ho as [Ho|[<-|[]]]; [apply H; exact Ho|].
       simpl. apply clock_ns_ok. exact Hc.
   Qed.
 
-  Lemma ok_store_data : forall r u' nm d l, clock_ok u' -> objs_ok l -> objs_ok (store_data r u' nm d l).
+  Lemma ok_store_data : forall r u' ud nm d l, clock_ok u' -> clock_ok ud -> objs_ok l ->
+    objs_ok (store_data r u' ud nm d l).
   Proof.
-    intros r u' nm d l Hc H. unfold store_data. destruct (has_content nm d l).
+    intros r u' ud nm d l Hc Hd H. unfold store_data. destruct (has_content nm d l).
     - destruct r; [apply ok_used; assumption|exact H].
     - apply ok_put; assumption.
   Qed.
@@ -392,18 +422,31 @@ Section Track.
     intros u' nm d l Hu H o Ho. destruct consts_rel as (_ & _ & _ & _ & Hm & _).
     unfold put_file in Ho. destruct (has_name nm l).
     - apply in_map_iff in Ho. destruct Ho as (x & <- & Hx).
-      destruct (on_name_cases nm (fun o0 => match okind_of o0 with KFile => mkObj nm u' d KFile | _ => o0 end) x)
-        as [->|[_ ->]]; [apply H; exact Hx|].
-      destruct (okind_of x) eqn:Ek; try (apply H; exact Hx). intros _ _. simpl. lia.
+      destruct (on_name_cases nm (put_over u' nm d) x) as [->|[_ ->]]; [apply H; exact Hx|].
+      unfold put_over. destruct (file_like (okind_of x)) eqn:Ek; [|apply H; exact Hx].
+      intros _ _. simpl. lia.
     - apply in_app_or in Ho. destruct Ho as [Ho|[<-|[]]]; [apply H; exact Ho|].
       intros _ _. simpl. lia.
   Qed.
 
-  Lemma K_store_data : forall r u' nm d l, u <= u' -> K l -> K (store_data r u' nm d l).
+  Lemma K_put_late : forall u' nm d l, u - mtime_interval <= u' -> K l -> K (put_file u' nm d l).
   Proof.
-    intros r u' nm d l Hu H. unfold store_data. destruct (has_content nm d l).
+    intros u' nm d l Hu H o Ho.
+    unfold put_file in Ho. destruct (has_name nm l).
+    - apply in_map_iff in Ho. destruct Ho as (x & <- & Hx).
+      destruct (on_name_cases nm (put_over u' nm d) x) as [->|[_ ->]]; [apply H; exact Hx|].
+      unfold put_over. destruct (file_like (okind_of x)) eqn:Ek; [|apply H; exact Hx].
+      intros _ _. simpl. lia.
+    - apply in_app_or in Ho. destruct Ho as [Ho|[<-|[]]]; [apply H; exact Ho|].
+      intros _ _. simpl. lia.
+  Qed.
+
+  Lemma K_store_data : forall r u' ud nm d l, u <= u' -> u' - mtime_interval <= ud -> K l ->
+    K (store_data r u' ud nm d l).
+  Proof.
+    intros r u' ud nm d l Hu Hd H. unfold store_data. destruct (has_content nm d l).
     - destruct r; [apply K_used; assumption|exact H].
-    - apply K_put; assumption.
+    - apply K_put_late; [lia|assumption].
   Qed.
 
   Lemma K_trim : forall cutoff l, K l -> K (trim_subdir cutoff l).
@@ -411,12 +454,11 @@ Section Track.
 
   (* --- E is preserved by the primitives at u' >= u, and by a trim at u' <= u + trimLimit *)
 
-  Lemma E_map : forall (g : obj -> obj) u' l, u <= u' -> clock_ok u' ->
+  Lemma E_map : forall (g : obj -> obj) u' l, u - mtime_interval <= u' -> clock_ok u' ->
     (forall o, oname (g o) = oname o /\ okind_of (g o) = okind_of o /\ (omtime (g o) = omtime o \/ omtime (g o) = u')) ->
     E l -> E (map g l).
   Proof.
     intros g u' l Hu Hc Hg (o & Ho & Hn & Hk & Hm & Hok).
-    destruct consts_rel as (_ & _ & _ & _ & Hmi & _).
     exists (g o). destruct (Hg o) as (G1 & G2 & G3).
     split; [apply in_map; exact Ho|]. rewrite G1, G2. split; [exact Hn|]. split; [exact Hk|].
     destruct G3 as [-> | ->]; [auto|]. split; [lia|apply clock_ns_ok; exact Hc].
@@ -434,27 +476,28 @@ Section Track.
 
   Lemma E_used : forall u' nm l, u <= u' -> clock_ok u' -> E l -> E (map (on_name nm (used_obj u')) l).
   Proof.
-    intros u' nm l Hu Hc. apply (E_map _ u'); try assumption.
+    intros u' nm l Hu Hc. destruct consts_rel as (_ & _ & _ & _ & Hmi & _).
+    apply (E_map _ u'); try assumption; [lia|].
     intros o. destruct (used_obj_shape u' nm o) as (A & B & _ & C). auto.
   Qed.
 
   Hypothesis kp_file : forall k, kp k = true -> k = KFile.
 
-  Lemma E_put : forall u' nm d l, u <= u' -> clock_ok u' -> E l -> E (put_file u' nm d l).
+  Lemma E_put : forall u' nm d l, u - mtime_interval <= u' -> clock_ok u' -> E l -> E (put_file u' nm d l).
   Proof.
     intros u' nm d l Hu Hc HE. unfold put_file. destruct (has_name nm l).
     - revert HE. apply (E_map _ u'); try assumption. intros o.
-      destruct (on_name_cases nm (fun o0 => match okind_of o0 with KFile => mkObj nm u' d KFile | _ => o0 end) o)
-        as [->|[Hnm ->]]; [auto|].
-      destruct (okind_of o) eqn:Ek; simpl; auto.
+      destruct (on_name_cases nm (put_over u' nm d) o) as [->|[Hnm ->]]; [auto|].
+      unfold put_over. destruct (file_like (okind_of o)) eqn:Ek; simpl; auto.
     - destruct HE as (o & Ho & R). exists o. split; [apply in_or_app; left; exact Ho|exact R].
   Qed.
 
-  Lemma E_store_data : forall r u' nm d l, u <= u' -> clock_ok u' -> E l -> E (store_data r u' nm d l).
+  Lemma E_store_data : forall r u' ud nm d l, u <= u' -> clock_ok u' -> clock_ok ud ->
+    u' - mtime_interval <= ud -> E l -> E (store_data r u' ud nm d l).
   Proof.
-    intros r u' nm d l Hu Hc HE. unfold store_data. destruct (has_content nm d l).
+    intros r u' ud nm d l Hu Hc Hcd Hd HE. unfold store_data. destruct (has_content nm d l).
     - destruct r; [apply E_used; assumption|exact HE].
-    - apply E_put; assumption.
+    - apply E_put; [lia|assumption|assumption].
   Qed.
 
   Lemma E_trim : forall u' l, clock_ok u' -> u' <= u + trim_limit -> E l -> E (trim_subdir (trim_cutoff u') l).
@@ -491,24 +534,40 @@ Section Track.
     unfold put_file in Ho. destruct (has_name n l) eqn:Eh.
     - apply in_map_iff in Ho. destruct Ho as (x & <- & Hx).
       unfold on_name. destruct (bytes_eqb (oname x) n) eqn:En.
-      + destruct (okind_of x) eqn:Ek; intros _ Hk; simpl in *; try lia;
-          rewrite Ek in Hk; apply kp_file in Hk; discriminate.
+      + unfold put_over. destruct (file_like (okind_of x)) eqn:Ek; intros _ Hk; simpl in *; [lia|].
+        apply kp_file in Hk. rewrite Hk in Ek. discriminate.
       + intros Hn. exfalso. apply bytes_eqb_eq in Hn. congruence.
     - apply in_app_or in Ho. destruct Ho as [Ho|[<-|[]]].
       + intros Hn. exfalso. eapply has_name_false; eassumption.
       + intros _ _. simpl. lia.
   Qed.
 
-  Lemma K_est_store_data : forall d l, clock_ok u -> objs_ok l -> K (store_data true u n d l).
+  Lemma K_est_put_late : forall ud d l, u - mtime_interval <= ud -> K (put_file ud n d l).
   Proof.
-    intros d l Hc Hok. unfold store_data. destruct (has_content n d l).
+    intros ud d l Hd o Ho.
+    unfold put_file in Ho. destruct (has_name n l) eqn:Eh.
+    - apply in_map_iff in Ho. destruct Ho as (x & <- & Hx).
+      unfold on_name. destruct (bytes_eqb (oname x) n) eqn:En.
+      + unfold put_over. destruct (file_like (okind_of x)) eqn:Ek; intros _ Hk; simpl in *; [lia|].
+        apply kp_file in Hk. rewrite Hk in Ek. discriminate.
+      + intros Hn. exfalso. apply bytes_eqb_eq in Hn. congruence.
+    - apply in_app_or in Ho. destruct Ho as [Ho|[<-|[]]].
+      + intros Hn. exfalso. eapply has_name_false; eassumption.
+      + intros _ _. simpl. lia.
+  Qed.
+
+  Lemma K_est_store_data : forall ud d l, clock_ok u -> u - mtime_interval <= ud -> objs_ok l ->
+    K (store_data true u ud n d l).
+  Proof.
+    intros ud d l Hc Hd Hok. unfold store_data. destruct (has_content n d l).
     - apply K_est_used; assumption.
-    - apply K_est_put.
+    - apply K_est_put_late. exact Hd.
   Qed.
 
   (* the code as it stood: a data file with the right content is not refreshed *)
-  Lemma K_est_store_data_asis : forall d l, has_content n d l = false -> K (store_data false u n d l).
-  Proof. intros d l H. unfold store_data. rewrite H. apply K_est_put. Qed.
+  Lemma K_est_store_data_asis : forall ud d l, u - mtime_interval <= ud -> has_content n d l = false ->
+    K (store_data false u ud n d l).
+  Proof. intros ud d l Hd H. unfold store_data. rewrite H. apply K_est_put_late. exact Hd. Qed.
 
 End Track.
 
@@ -522,27 +581,93 @@ Proof. destruct k; simpl; intro H; try discriminate; reflexivity. Qed.
 Lemma is_file_stat : forall k, is_file k = true -> stat_ok k = true.
 Proof. destruct k; simpl; intro H; try discriminate; reflexivity. Qed.
 
-Lemma stat_stat : forall k, stat_ok k = true -> stat_ok k = true.
-Proof. auto. Qed.
+(* every event but Trim is a sequence of operations on single subdirectories *)
+Inductive prim :=
+| PUsed (u : Z) (nm : bytes)
+| PPut (u : Z) (nm d : bytes)
+| PData (r : bool) (u ud : Z) (nm d : bytes).
 
-Lemma dir_ok_step : forall r c e, dir_ok c -> clock_ok (etime e) -> dir_ok (step r c e).
+Definition prim_fn (p : prim) : list obj -> list obj :=
+  match p with
+  | PUsed u nm => map (on_name nm (used_obj u))
+  | PPut u nm d => put_file u nm d
+  | PData r u ud nm d => store_data r u ud nm d
+  end.
+
+Definition prim_time (p : prim) : Z :=
+  match p with PUsed u _ | PPut u _ _ | PData _ u _ _ _ => u end.
+
+(* the times of an operation are sound *)
+Definition prim_wf (p : prim) : Prop :=
+  clock_ok (prim_time p) /\
+  match p with PData _ u ud _ _ => clock_ok ud /\ u - mtime_interval <= ud | _ => True end.
+
+Definition apply_ops (ops : list (nat * prim)) (c : cdir) : cdir :=
+  fold_left (fun c jp => upd_subdir (fst jp) (prim_fn (snd jp)) c) ops c.
+
+Definition step_ops (r : bool) (e : event) : list (nat * prim) :=
+  match e with
+  | EGet u ia na => [(ia, PUsed u na)]
+  | ELookup u ia na id nd => [(ia, PUsed u na); (id, PUsed u nd)]
+  | EOutput u id nd => [(id, PUsed u nd)]
+  | EStore u ud ia na da id nd dd => [(id, PData r u ud nd dd); (ia, PPut u na da)]
+  | EStoreData u ud id nd dd => [(id, PData r u ud nd dd)]
+  | ETrim _ => []
+  end.
+
+Lemma step_as_ops : forall r c e, (forall u, e <> ETrim u) -> step r c e = apply_ops (step_ops r e) c.
+Proof. intros r c e H. destruct e; try reflexivity. exfalso. eapply H. reflexivity. Qed.
+
+Lemma step_ops_time : forall r e jp, In jp (step_ops r e) -> prim_time (snd jp) = etime e.
 Proof.
-  intros r c e H Hc. destruct e; simpl in *.
-  - unfold used. apply dir_ok_upd; [exact H|]. intros l. apply ok_used. exact Hc.
-  - unfold lookup, used. apply dir_ok_upd; [apply dir_ok_upd; [exact H|]|]; intros l; apply ok_used; exact Hc.
-  - unfold store. apply dir_ok_upd; [apply dir_ok_upd; [exact H|]|]; intros l.
-    + apply ok_put. exact Hc.
-    + apply ok_store_data. exact Hc.
-  - intros l o Hl Ho. unfold trim in Hl. destruct (trim_due u (trimtxt c)); [|eapply H; eassumption].
-    simpl in Hl. unfold trim_subdirs in Hl. apply in_app_or in Hl. destruct Hl as [Hl|Hl].
-    + apply in_map_iff in Hl. destruct Hl as (x & <- & Hx). apply In_trim_subdir in Ho.
-      eapply H; [|apply Ho].
-      rewrite <- (firstn_skipn (Z.to_nat trim_subdir_count) (subdirs c)). apply in_or_app. left. exact Hx.
-    + eapply H; [|exact Ho].
-      rewrite <- (firstn_skipn (Z.to_nat trim_subdir_count) (subdirs c)). apply in_or_app. right. exact Hl.
+  intros r e jp H. destruct e; simpl in H;
+    repeat (destruct H as [<-|H]; [reflexivity|]); contradiction.
 Qed.
 
-Lemma dir_ok_run : forall r h c, dir_ok c -> Forall (fun e => clock_ok (etime e)) h -> dir_ok (run r c h).
+Lemma step_ops_wf : forall r e jp, ev_ok e -> In jp (step_ops r e) -> prim_wf (snd jp).
+Proof.
+  intros r e jp [Hc Hd] H. destruct e; simpl in *;
+    repeat (destruct H as [<-|H]; [split; simpl; auto|]); contradiction.
+Qed.
+
+Lemma prim_ok : forall p l, prim_wf p -> objs_ok l -> objs_ok (prim_fn p l).
+Proof.
+  intros [u nm|u nm d|r u ud nm d] l [Hc Hd] H; simpl in *;
+    [apply ok_used|apply ok_put|apply ok_store_data]; try assumption; apply Hd.
+Qed.
+
+Lemma apply_ops_ok : forall ops c, dir_ok c -> (forall jp, In jp ops -> prim_wf (snd jp)) ->
+  dir_ok (apply_ops ops c).
+Proof.
+  induction ops as [|op ops IH]; intros c H Hc; [exact H|].
+  simpl. apply IH.
+  - apply dir_ok_upd; [exact H|]. intros l. apply prim_ok. apply Hc. left. reflexivity.
+  - intros jp Hj. apply Hc. right. exact Hj.
+Qed.
+
+Lemma dir_ok_trim : forall now c, dir_ok c -> dir_ok (trim now c).
+Proof.
+  intros now c H l o Hl Ho. unfold trim in Hl. destruct (trim_due now (read_record c)); [|eapply H; eassumption].
+  cbn [subdirs] in Hl. unfold trim_subdirs in Hl. apply in_app_or in Hl. destruct Hl as [Hl|Hl].
+  - apply in_map_iff in Hl. destruct Hl as (x & Hx & Hin). destruct x as [lx|]; [|discriminate].
+    simpl in Hx. inversion Hx; subst. apply In_trim_subdir in Ho.
+    eapply H; [|apply Ho].
+    rewrite <- (firstn_skipn (Z.to_nat trim_subdir_count) (subdirs c)). apply in_or_app. left. exact Hin.
+  - eapply H; [|exact Ho].
+    rewrite <- (firstn_skipn (Z.to_nat trim_subdir_count) (subdirs c)). apply in_or_app. right. exact Hl.
+Qed.
+
+Lemma dir_ok_step : forall r c e, dir_ok c -> ev_ok e -> dir_ok (step r c e).
+Proof.
+  intros r c e H Hc. destruct e as [| | | | |u]; try (rewrite step_as_ops by discriminate; apply apply_ops_ok; [exact H|];
+    intros jp Hj; apply (step_ops_wf _ _ _ Hc Hj)).
+  apply dir_ok_trim. exact H.
+Qed.
+
+Lemma ev_ok_clock : forall e, ev_ok e -> clock_ok (etime e).
+Proof. intros e H. apply H. Qed.
+
+Lemma dir_ok_run : forall r h c, dir_ok c -> Forall ev_ok h -> dir_ok (run r c h).
 Proof.
   intros r h. induction h as [|e h IH]; intros c H Hc; [exact H|].
   inversion Hc; subst. simpl. apply IH; [apply dir_ok_step; assumption|assumption].
@@ -554,41 +679,57 @@ Section TrackDir.
   Variable u : Z.
   Variable kp : okind -> bool.
 
-  (* any later event keeps the mtime bound of the tracked file *)
-  Lemma K_step : forall r c e, u <= etime e -> K n u kp (subdir i c) -> K n u kp (subdir i (step r c e)).
+  Lemma prim_K : forall p l, u <= prim_time p -> prim_wf p -> K n u kp l -> K n u kp (prim_fn p l).
   Proof.
-    intros r c e Hu H. destruct e; simpl in *.
-    - unfold used. apply subdir_upd_pres; [exact H|]. intros l. apply K_used. exact Hu.
-    - unfold lookup, used.
-      apply subdir_upd_pres; [apply subdir_upd_pres; [exact H|]|]; intros l; apply K_used; exact Hu.
-    - unfold store. apply subdir_upd_pres; [apply subdir_upd_pres; [exact H|]|]; intros l.
-      + apply K_put. exact Hu.
-      + apply K_store_data. exact Hu.
-    - rewrite subdir_trim. destruct (_ && _); [apply K_trim|]; exact H.
+    intros [u' nm|u' nm d|r u' ud nm d] l Hu [Hc Hd] H; simpl in *;
+      [apply K_used|apply K_put|apply K_store_data]; try assumption; apply Hd.
+  Qed.
+
+  Lemma prim_E : forall p l, u <= prim_time p -> prim_wf p -> E n u kp l -> E n u kp (prim_fn p l).
+  Proof.
+    intros [u' nm|u' nm d|r u' ud nm d] l Hu [Hc Hd] H; simpl in *; destruct consts_rel as (_ & _ & _ & _ & Hmi & _).
+    - apply E_used; assumption.
+    - apply E_put; try assumption. lia.
+    - apply E_store_data; try assumption; apply Hd.
+  Qed.
+
+  Lemma apply_ops_pres : forall (P : list obj -> Prop) ops c,
+    (forall jp l, In jp ops -> P l -> P (prim_fn (snd jp) l)) ->
+    P (subdir i c) -> P (subdir i (apply_ops ops c)).
+  Proof.
+    intros P. induction ops as [|op ops IH]; intros c Hf H; [exact H|].
+    simpl. apply IH.
+    - intros jp l Hj. apply Hf. right. exact Hj.
+    - apply subdir_upd_pres; [exact H|]. intros l. apply Hf. left. reflexivity.
+  Qed.
+
+  (* any later event keeps the mtime bound of the tracked file *)
+  Lemma K_step : forall r c e, u <= etime e -> ev_ok e -> K n u kp (subdir i c) -> K n u kp (subdir i (step r c e)).
+  Proof.
+    intros r c e Hu Hev H. destruct e as [| | | | |t];
+      try (rewrite step_as_ops by discriminate; apply apply_ops_pres; [|exact H];
+           intros jp l Hj; apply prim_K; [rewrite (step_ops_time _ _ _ Hj); exact Hu|apply (step_ops_wf _ _ _ Hev Hj)]).
+    simpl. rewrite subdir_trim. destruct (_ && _); [apply K_trim|]; exact H.
   Qed.
 
   (* an event within trimLimit after the use keeps the tracked file in existence *)
-  Lemma E_step : forall r c e, clock_ok (etime e) -> u <= etime e <= u + trim_limit ->
+  Lemma E_step : forall r c e, ev_ok e -> u <= etime e <= u + trim_limit ->
     E n u kp (subdir i c) -> E n u kp (subdir i (step r c e)).
   Proof.
-    intros r c e Hc [Hu Hl] H. destruct e; simpl in *.
-    - unfold used. apply subdir_upd_pres; [exact H|]. intros l. apply E_used; assumption.
-    - unfold lookup, used.
-      apply subdir_upd_pres; [apply subdir_upd_pres; [exact H|]|]; intros l; apply E_used; assumption.
-    - unfold store. apply subdir_upd_pres; [apply subdir_upd_pres; [exact H|]|]; intros l.
-      + apply E_put; assumption.
-      + apply E_store_data; assumption.
-    - rewrite subdir_trim. destruct (_ && _); [apply E_trim; assumption|exact H].
+    intros r c e Hev [Hu Hl] H. destruct e as [| | | | |t];
+      try (rewrite step_as_ops by discriminate; apply apply_ops_pres; [|exact H];
+           intros jp l Hj; apply prim_E; [rewrite (step_ops_time _ _ _ Hj); exact Hu|apply (step_ops_wf _ _ _ Hev Hj)]).
+    destruct Hev as [Hc _]. simpl in *. rewrite subdir_trim. destruct (_ && _); [apply E_trim; assumption|exact H].
   Qed.
 
-  Lemma K_run : forall r h c, Forall (fun e => u <= etime e) h ->
+  Lemma K_run : forall r h c, Forall (fun e => u <= etime e) h -> Forall ev_ok h ->
     K n u kp (subdir i c) -> K n u kp (subdir i (run r c h)).
   Proof.
-    intros r h. induction h as [|e h IH]; intros c Hh H; [exact H|].
-    inversion Hh; subst. simpl. apply IH; [assumption|]. apply K_step; assumption.
+    intros r h. induction h as [|e h IH]; intros c Hh Hev H; [exact H|].
+    inversion Hh; inversion Hev; subst. simpl. apply IH; [assumption|assumption|]. apply K_step; assumption.
   Qed.
 
-  Lemma E_run : forall r h c, Forall (fun e => clock_ok (etime e) /\ u <= etime e <= u + trim_limit) h ->
+  Lemma E_run : forall r h c, Forall (fun e => ev_ok e /\ u <= etime e <= u + trim_limit) h ->
     E n u kp (subdir i c) -> E n u kp (subdir i (run r c h)).
   Proof.
     intros r h. induction h as [|e h IH]; intros c Hh H; [exact H|].
@@ -598,64 +739,96 @@ Section TrackDir.
   Lemma K_nil : K n u kp [].
   Proof. intros o []. Qed.
 
-  (* a lookup (Get / GetFile / GetBytes) at time u establishes the bound for everything
-     os.Stat accepts under that name *)
-  Lemma K_est_lookup_step : forall r c e, (forall k, kp k = true -> stat_ok k = true) ->
-    dir_ok c -> clock_ok u -> etime e = u -> uses e i n ->
-    match e with EStore _ _ _ _ _ _ _ => False | _ => True end ->
-    K n u kp (subdir i (step r c e)).
+  (* an operation that brings the mtime of the tracked file up to date *)
+  Definition establishes (p : prim) : Prop :=
+    match p with
+    | PUsed u' nm => u' = u /\ nm = n /\ (forall k, kp k = true -> stat_ok k = true)
+    | PPut u' nm _ => u' = u /\ nm = n /\ (forall k, kp k = true -> k = KFile)
+    | PData r u' ud nm _ => u' = u /\ nm = n /\ r = true /\ (forall k, kp k = true -> k = KFile)
+    end.
+
+  Lemma prim_est : forall p l, prim_wf p -> establishes p -> objs_ok l -> K n u kp (prim_fn p l).
   Proof.
-    intros r c e Hkp Hok Hc Ht Hu Hns. destruct e; simpl in *; subst; try contradiction.
-    - destruct Hu as [-> ->]. unfold used.
-      apply (subdir_upd_est (K n u kp) objs_ok); [apply K_nil|apply dir_ok_subdir; exact Hok|].
-      intros l Hl. apply K_est_used; assumption.
-    - unfold lookup. destruct Hu as [[-> ->]|[-> ->]].
-      + unfold used at 1. apply subdir_upd_pres; [|intros l; apply K_used; lia].
-        apply (subdir_upd_est (K n u kp) objs_ok); [apply K_nil|apply dir_ok_subdir; exact Hok|].
-        intros l Hl. apply K_est_used; assumption.
-      + unfold used at 1.
-        apply (subdir_upd_est (K n u kp) objs_ok); [apply K_nil| |].
-        * apply dir_ok_subdir. apply (dir_ok_step r c (EGet u ia na)); assumption.
-        * intros l Hl. apply K_est_used; assumption.
+    intros [u' nm|u' nm d|r u' ud nm d] l [Hc Hd] He Hok; simpl in *.
+    - destruct He as (-> & -> & Hk). apply K_est_used; assumption.
+    - destruct He as (-> & -> & Hk). apply K_est_put. exact Hk.
+    - destruct He as (-> & -> & -> & Hk). apply K_est_store_data; try assumption; try apply Hd.
+      intros k Hkk. apply Hk in Hkk. subst. reflexivity.
   Qed.
 
-  (* a store at time u establishes it for the regular files, when the repaired Put is modelled *)
-  Lemma K_est_store_step : forall c u0 ia na da id nd dd, (forall k, kp k = true -> k = KFile) ->
-    dir_ok c -> clock_ok u -> u0 = u -> uses (EStore u0 ia na da id nd dd) i n ->
-    K n u kp (subdir i (step true c (EStore u0 ia na da id nd dd))).
+  Lemma K_est_ops : forall ops c p, dir_ok c ->
+    (forall jp, In jp ops -> prim_time (snd jp) = u /\ prim_wf (snd jp)) ->
+    In (i, p) ops -> establishes p -> K n u kp (subdir i (apply_ops ops c)).
   Proof.
-    intros c u0 ia na da id nd dd Hkp Hok Hc -> Hu. simpl in *. unfold store.
-    assert (Hks : forall k, kp k = true -> stat_ok k = true).
-    { intros k Hk. apply Hkp in Hk. subst. reflexivity. }
-    destruct Hu as [[-> ->]|[-> ->]].
-    - apply subdir_upd_pres; [|intros l; apply K_store_data; lia].
-      apply (subdir_upd_est (K n u kp) (fun _ => True)); [apply K_nil|exact I|].
-      intros l _. apply K_est_put. exact Hkp.
-    - apply (subdir_upd_est (K n u kp) objs_ok); [apply K_nil| |].
-      + apply dir_ok_subdir. apply dir_ok_upd; [exact Hok|]. intros l. apply ok_put. exact Hc.
-      + intros l Hl. apply K_est_store_data; assumption.
-  Qed.
-
-  (* the code as it stood: only when the store writes the data file (or the file is the index file) *)
-  Lemma K_est_store_step_asis : forall c u0 ia na da id nd dd, (forall k, kp k = true -> k = KFile) ->
-    clock_ok u -> u0 = u -> uses (EStore u0 ia na da id nd dd) i n ->
-    ((ia = i /\ na = n) \/
-     has_content nd dd (subdir id (upd_subdir ia (put_file u0 na da) c)) = false) ->
-    K n u kp (subdir i (step false c (EStore u0 ia na da id nd dd))).
-  Proof.
-    intros c u0 ia na da id nd dd Hkp Hc -> Hu Hcond. simpl in *. unfold store.
-    destruct Hcond as [[-> ->]|Hnc].
-    - apply subdir_upd_pres; [|intros l; apply K_store_data; lia].
-      apply (subdir_upd_est (K n u kp) (fun _ => True)); [apply K_nil|exact I|].
-      intros l _. apply K_est_put. exact Hkp.
-    - destruct Hu as [[-> ->]|[-> ->]].
-      + apply subdir_upd_pres; [|intros l; apply K_store_data; lia].
-        apply (subdir_upd_est (K n u kp) (fun _ => True)); [apply K_nil|exact I|].
-        intros l _. apply K_est_put. exact Hkp.
-      + apply (subdir_upd_est (K n u kp) (fun l => has_content n dd l = false)); [apply K_nil|exact Hnc|].
-        intros l Hl. apply K_est_store_data_asis; assumption.
+    induction ops as [|op ops IH]; intros c p Hok Ht Hin He; [contradiction|].
+    simpl. destruct Hin as [->|Hin].
+    - simpl. apply apply_ops_pres.
+      + intros jp l Hj. destruct (Ht jp (or_intror Hj)) as [T W]. apply prim_K; [rewrite T; lia|exact W].
+      + apply (subdir_upd_est (K n u kp) objs_ok); [apply K_nil|apply dir_ok_subdir; exact Hok|].
+        intros l Hl. apply prim_est; try assumption. apply (Ht (i, p)). left. reflexivity.
+    - apply (IH _ p); try assumption.
+      + apply dir_ok_upd; [exact Hok|]. intros l. apply prim_ok. apply (Ht op). left. reflexivity.
+      + intros jp Hj. apply Ht. right. exact Hj.
   Qed.
 End TrackDir.
+
+Lemma K_est_event : forall r kp c e i n p, dir_ok c -> ev_ok e -> (forall u, e <> ETrim u) ->
+  In (i, p) (step_ops r e) -> establishes n (etime e) kp p ->
+  K n (etime e) kp (subdir i (step r c e)).
+Proof.
+  intros r kp c e i n p Hok Hev Hnt Hin He. rewrite step_as_ops by exact Hnt.
+  apply (K_est_ops i n (etime e) kp (step_ops r e) c p); try assumption.
+  intros jp Hj. split; [apply (step_ops_time _ _ _ Hj)|apply (step_ops_wf _ _ _ Hev Hj)].
+Qed.
+
+(* a use at its own time establishes the bound, in the repaired model *)
+Lemma K_est_step : forall c e i n, dir_ok c -> ev_ok e -> uses e i n ->
+  K n (etime e) is_file (subdir i (step true c e)).
+Proof.
+  intros c e i n Hok Hev Hu.
+  assert (Hs := is_file_stat). assert (Hf := is_file_file).
+  destruct e as [u ia na|u ia na id nd|u id nd|u ud ia na da id nd dd|u ud id nd dd|u]; simpl in Hu; try contradiction.
+  - destruct Hu as [-> ->]. apply (K_est_event true is_file c _ i n (PUsed u n)); try assumption; try discriminate; simpl; auto.
+  - destruct Hu as [[-> ->]|[-> ->]];
+      apply (K_est_event true is_file c _ i n (PUsed u n)); try assumption; try discriminate; simpl; auto.
+  - destruct Hu as [-> ->]. apply (K_est_event true is_file c _ i n (PUsed u n)); try assumption; try discriminate; simpl; auto.
+  - destruct Hu as [[-> ->]|[-> ->]].
+    + apply (K_est_event true is_file c _ i n (PPut u n da)); try assumption; try discriminate; simpl; auto.
+    + apply (K_est_event true is_file c _ i n (PData true u ud n dd)); try assumption; try discriminate; simpl; auto.
+Qed.
+
+(* for lookups the same holds for everything os.Stat accepts, and for either modelling of Put *)
+Lemma K_est_lookup_step : forall r c e i n, dir_ok c -> ev_ok e -> uses e i n ->
+  match e with EStore _ _ _ _ _ _ _ _ => False | _ => True end ->
+  K n (etime e) stat_ok (subdir i (step r c e)).
+Proof.
+  intros r c e i n Hok Hev Hu Hns.
+  destruct e as [u ia na|u ia na id nd|u id nd|u ud ia na da id nd dd|u ud id nd dd|u]; simpl in Hu; try contradiction.
+  - destruct Hu as [-> ->]. apply (K_est_event r stat_ok c _ i n (PUsed u n)); try assumption; try discriminate; simpl; auto.
+  - destruct Hu as [[-> ->]|[-> ->]];
+      apply (K_est_event r stat_ok c _ i n (PUsed u n)); try assumption; try discriminate; simpl; auto.
+  - destruct Hu as [-> ->]. apply (K_est_event r stat_ok c _ i n (PUsed u n)); try assumption; try discriminate; simpl; auto.
+Qed.
+
+Lemma K_est_step_asis : forall c e i n, dir_ok c -> ev_ok e -> uses e i n ->
+  store_refreshes c e i n -> K n (etime e) is_file (subdir i (step false c e)).
+Proof.
+  intros c e i n Hok Hev Hu Hsr.
+  assert (Hs := is_file_stat). assert (Hf := is_file_file).
+  destruct e as [u ia na|u ia na id nd|u id nd|u ud ia na da id nd dd|u ud id nd dd|u]; simpl in Hu; try contradiction.
+  - destruct Hu as [-> ->]. apply (K_est_event false is_file c _ i n (PUsed u n)); try assumption; try discriminate; simpl; auto.
+  - destruct Hu as [[-> ->]|[-> ->]];
+      apply (K_est_event false is_file c _ i n (PUsed u n)); try assumption; try discriminate; simpl; auto.
+  - destruct Hu as [-> ->]. apply (K_est_event false is_file c _ i n (PUsed u n)); try assumption; try discriminate; simpl; auto.
+  - simpl in Hsr. destruct Hsr as [[-> ->]|Hnc].
+    + apply (K_est_event false is_file c _ i n (PPut u n da)); try assumption; try discriminate; simpl; auto.
+    + destruct Hu as [[-> ->]|[-> ->]].
+      * apply (K_est_event false is_file c _ i n (PPut u n da)); try assumption; try discriminate; simpl; auto.
+      * destruct Hev as [Hc [Hcd Hd]]. simpl in *. unfold store.
+        apply subdir_upd_pres; [|intros l; apply K_put; lia].
+        apply (subdir_upd_est (K n u is_file) (fun l => has_content n dd l = false)); [apply K_nil|exact Hnc|].
+        intros l Hl. apply K_est_store_data_asis; assumption.
+Qed.
 
 (* ================================================================== the theorems of C13 *)
 
@@ -695,9 +868,9 @@ Proof.
 Qed.
 
 Theorem trim_skips : forall now c, clock_ok now ->
-  record_in_window now (trimtxt c) -> trim now c = c.
+  record_in_window now (read_record c) -> trim now c = c /\ trim_err now c = false.
 Proof.
-  intros now c Hc Hw. unfold trim. rewrite in_window_not_due by assumption. reflexivity.
+  intros now c Hc Hw. unfold trim, trim_err. rewrite in_window_not_due by assumption. split; reflexivity.
 Qed.
 
 Lemma clock_unix_seconds : forall now, clock_ok now ->
@@ -712,23 +885,25 @@ Proof.
   apply wrap64_id. exact Hi.
 Qed.
 
-Theorem trim_runs_otherwise : forall now c, clock_ok now -> record_stale now (trimtxt c) ->
-  trim now c = trimmed now c /\
+Theorem trim_runs_otherwise : forall now c, clock_ok now -> record_stale now (read_record c) ->
+  trim now c = trimmed now c /\ trim_err now c = trimblocked c /\
   parse_int (trim_space (decimal (now / nano))) = Some (now / nano).
 Proof.
-  intros now c Hc Hs. destruct (clock_unix_seconds now Hc) as [Hu Hi]. split.
+  intros now c Hc Hs. destruct (clock_unix_seconds now Hc) as [Hu Hi]. split; [|split].
   - unfold trim, trimmed. rewrite stale_due by assumption. rewrite Hu. reflexivity.
+  - unfold trim_err. rewrite stale_due by assumption. reflexivity.
   - rewrite trim_space_decimal. apply decimal_parse. exact Hi.
 Qed.
 
 (* a trim that ran is followed by skips for (a day minus the second the record loses) *)
 Theorem trim_then_skips : forall now now' c, clock_ok now -> clock_ok now' ->
-  record_stale now (trimtxt c) -> now <= now' -> now' - now < trim_interval - nano ->
+  record_stale now (read_record c) -> trimblocked c = false ->
+  now <= now' -> now' - now < trim_interval - nano ->
   trim now' (trim now c) = trim now c.
 Proof.
-  intros now now' c Hc Hc' Hs Hle Hlt.
-  destruct (trim_runs_otherwise now c Hc Hs) as [-> Hp].
-  apply trim_skips; [exact Hc'|]. unfold trimmed. simpl.
+  intros now now' c Hc Hc' Hs Hb Hle Hlt.
+  destruct (trim_runs_otherwise now c Hc Hs) as (-> & _ & Hp).
+  apply trim_skips; [exact Hc'|]. unfold trimmed, read_record. simpl. rewrite Hb.
   exists (decimal (now / nano)), (now / nano). split; [reflexivity|]. split; [exact Hp|].
   destruct consts_rel as (_ & _ & _ & _ & Hm & _). unfold nano in *. zlia.
 Qed.
@@ -763,7 +938,7 @@ Proof.
   rewrite F. rewrite andb_false_r. reflexivity.
 Qed.
 
-Theorem trim_removes_stale : forall now c i o, clock_ok now -> record_stale now (trimtxt c) ->
+Theorem trim_removes_stale : forall now c i o, clock_ok now -> record_stale now (read_record c) ->
   (i < Z.to_nat trim_subdir_count)%nat -> ns_ok (omtime o) ->
   is_entry_name (oname o) = true -> okind_of o = KFile ->
   omtime o < now - trim_limit - mtime_interval ->
@@ -801,8 +976,8 @@ Theorem trim_only_entries : forall now c,
     ((Z.to_nat trim_subdir_count <= i)%nat -> subdir i (trim now c) = subdir i c).
 Proof.
   intros now c. split; [|split].
-  - unfold trim. destruct (trim_due now (trimtxt c)); reflexivity.
-  - unfold trim. destruct (trim_due now (trimtxt c)); [|reflexivity]. simpl.
+  - unfold trim. destruct (trim_due now (read_record c)); reflexivity.
+  - unfold trim. destruct (trim_due now (read_record c)); [|reflexivity]. simpl.
     unfold trim_subdirs. rewrite app_length, map_length, <- app_length, firstn_skipn. reflexivity.
   - intros i. split; [|split; [|split]].
     + intros o. apply subdir_trim_sub.
@@ -812,17 +987,228 @@ Proof.
     + intros Hi. rewrite subdir_trim. apply Nat.ltb_ge in Hi. rewrite Hi. rewrite andb_false_r. reflexivity.
 Qed.
 
+
+(* ---- a Trim that was interrupted *)
+
+Lemma nth_map_combine_seq : forall A B (F : nat -> A -> B) (dA : A) (dB : B) (l : list A) s i,
+  (forall j, F j dA = dB) ->
+  nth i (map (fun p => F (fst p) (snd p)) (combine (seq s (length l)) l)) dB = F (s + i)%nat (nth i l dA).
+Proof.
+  intros A B F dA dB. induction l as [|x r IH]; intros s i HF.
+  - simpl. destruct i; rewrite HF; reflexivity.
+  - simpl. destruct i as [|i].
+    + rewrite Nat.add_0_r. reflexivity.
+    + rewrite IH by exact HF. f_equal. lia.
+Qed.
+
+Definition partial_keep (done : nat -> obj -> bool) (now : Z) (i : nat) (o : obj) : bool :=
+  negb (trim_removes (trim_cutoff now) o && done i o && Nat.ltb i (Z.to_nat trim_subdir_count)).
+
+Lemma subdir_trim_partial : forall done now c i,
+  subdir i (trim_partial done now c) =
+  if trim_due now (read_record c) then filter (partial_keep done now i) (subdir i c) else subdir i c.
+Proof.
+  intros done now c i. unfold trim_partial. destruct (trim_due now (read_record c)); [|reflexivity].
+  unfold subdir. cbn [subdirs].
+  rewrite (nth_map_combine_seq _ _
+            (fun j x => option_map (filter (fun o => negb (trim_removes (trim_cutoff now) o && done j o
+                                                           && Nat.ltb j (Z.to_nat trim_subdir_count)))) x)
+            None None) by reflexivity.
+  simpl. destruct (nth i (subdirs c) None); reflexivity.
+Qed.
+
+(* Safety on every prefix of the scan, in any order: whatever subset of the removals has been
+   carried out, nothing outside the subdirectories and no record changed (so the next Trim
+   runs again), nothing was added or modified, files without an entry name are all there,
+   whatever was used within trimLimit is there, and only stale entries are gone. *)
+Theorem trim_partial_safe : forall done now c, clock_ok now ->
+  rootobjs (trim_partial done now c) = rootobjs c /\
+  trimtxt (trim_partial done now c) = trimtxt c /\
+  trimblocked (trim_partial done now c) = trimblocked c /\
+  (forall now', trim_due now' (read_record (trim_partial done now c)) = trim_due now' (read_record c)) /\
+  forall i,
+    (forall o, In o (subdir i (trim_partial done now c)) -> In o (subdir i c)) /\
+    filter non_entry (subdir i (trim_partial done now c)) = filter non_entry (subdir i c) /\
+    (forall o lastuse, In o (subdir i c) -> ns_ok (omtime o) ->
+       lastuse - mtime_interval <= omtime o -> now - trim_limit <= lastuse ->
+       In o (subdir i (trim_partial done now c))) /\
+    (forall o, In o (subdir i c) -> ns_ok (omtime o) -> ~ In o (subdir i (trim_partial done now c)) ->
+       is_entry_name (oname o) = true /\ omtime o < now - trim_limit - mtime_interval).
+Proof.
+  intros done now c Hc.
+  assert (Hshape : rootobjs (trim_partial done now c) = rootobjs c /\
+                   trimtxt (trim_partial done now c) = trimtxt c /\
+                   trimblocked (trim_partial done now c) = trimblocked c).
+  { unfold trim_partial. destruct (trim_due now (read_record c)); auto. }
+  destruct Hshape as (H1 & H2 & H3). split; [exact H1|]. split; [exact H2|]. split; [exact H3|].
+  split; [intros now'; unfold read_record; rewrite H2, H3; reflexivity|].
+  destruct consts_rel as (_ & _ & _ & Hoff & _).
+  intros i. rewrite subdir_trim_partial. destruct (trim_due now (read_record c)).
+  - split; [|split; [|split]].
+    + intros o Ho. apply filter_In in Ho. tauto.
+    + induction (subdir i c) as [|o l IH]; [reflexivity|]. simpl.
+      unfold partial_keep at 1. unfold trim_removes at 1. unfold non_entry at 2.
+      destruct (is_entry_name (oname o)) eqn:En; simpl.
+      * destruct (negb _); simpl; [unfold non_entry at 1; rewrite En; simpl|]; exact IH.
+      * unfold non_entry at 1. rewrite En. simpl. f_equal. exact IH.
+    + intros o lu Ho Hm Hinv Hlu. apply filter_In. split; [exact Ho|].
+      unfold partial_keep. rewrite trim_removes_spec by assumption.
+      assert (F : (omtime o <? now + cutoff_offset) = false) by (apply Z.ltb_ge; lia).
+      rewrite F. rewrite andb_false_r. reflexivity.
+    + intros o Ho Hm Hgone.
+      destruct (partial_keep done now i o) eqn:Ek.
+      * exfalso. apply Hgone. apply filter_In. split; assumption.
+      * unfold partial_keep in Ek. apply negb_false_iff in Ek.
+        apply andb_true_iff in Ek. destruct Ek as [Ek _]. apply andb_true_iff in Ek. destruct Ek as [Ek _].
+        rewrite trim_removes_spec in Ek by assumption.
+        apply andb_true_iff in Ek. destruct Ek as [Ek _]. apply andb_true_iff in Ek. destruct Ek as [Ek Hlt].
+        apply andb_true_iff in Ek. destruct Ek as [Ek _]. apply Z.ltb_lt in Hlt. split; [exact Ek|lia].
+  - split; [|split; [|split]]; auto. intros o Ho Hm Hgone. contradiction.
+Qed.
+
+(* the case the interruption is described by a number of completed subdirectories *)
+Theorem trim_prefix_safe : forall k now c, clock_ok now ->
+  rootobjs (trim_prefix k now c) = rootobjs c /\
+  trimtxt (trim_prefix k now c) = trimtxt c /\
+  trimblocked (trim_prefix k now c) = trimblocked c /\
+  (forall now', trim_due now' (read_record (trim_prefix k now c)) = trim_due now' (read_record c)) /\
+  forall i,
+    (forall o, In o (subdir i (trim_prefix k now c)) -> In o (subdir i c)) /\
+    filter non_entry (subdir i (trim_prefix k now c)) = filter non_entry (subdir i c) /\
+    (forall o lastuse, In o (subdir i c) -> ns_ok (omtime o) ->
+       lastuse - mtime_interval <= omtime o -> now - trim_limit <= lastuse ->
+       In o (subdir i (trim_prefix k now c))) /\
+    (forall o, In o (subdir i c) -> ns_ok (omtime o) -> ~ In o (subdir i (trim_prefix k now c)) ->
+       is_entry_name (oname o) = true /\ omtime o < now - trim_limit - mtime_interval).
+Proof. intros k. apply trim_partial_safe. Qed.
+
+(* the prefixes are what they say: subdirectories below k are trimmed, the others untouched *)
+Lemma subdir_trim_prefix : forall k now c i,
+  subdir i (trim_prefix k now c) =
+  if trim_due now (read_record c) && Nat.ltb i (Nat.min k (Z.to_nat trim_subdir_count))
+  then trim_subdir (trim_cutoff now) (subdir i c) else subdir i c.
+Proof.
+  intros k now c i. unfold trim_prefix. rewrite subdir_trim_partial.
+  destruct (trim_due now (read_record c)); [|reflexivity]. cbn [andb].
+  unfold partial_keep, trim_subdir.
+  destruct (Nat.ltb i (Nat.min k (Z.to_nat trim_subdir_count))) eqn:E.
+  - assert (E2 : Nat.ltb i (Z.to_nat trim_subdir_count) = true).
+    { apply Nat.ltb_lt in E. apply Nat.ltb_lt. lia. }
+    rewrite E2. apply filter_ext. intros o. rewrite !andb_true_r. reflexivity.
+  - rewrite <- (filter_ext (fun _ => true)).
+    + induction (subdir i c) as [|o l IH]; [reflexivity|]. simpl. f_equal. exact IH.
+    + intros o. rewrite andb_false_r. reflexivity.
+Qed.
+
+Lemma trim_removes_mono : forall now now' o, clock_ok now -> clock_ok now' -> now <= now' ->
+  trim_removes (trim_cutoff now) o = true -> trim_removes (trim_cutoff now') o = true.
+Proof.
+  intros now now' o Hc Hc' Hle. unfold trim_removes.
+  destruct (trim_cutoff_spec now Hc) as [-> Hok]. destruct (trim_cutoff_spec now' Hc') as [-> Hok'].
+  assert (Hv : valid (time_of_ns (omtime o))).
+  { split; [apply wrap64_range|]. simpl. unfold nano. apply Z.mod_pos_bound. lia. }
+  rewrite !time_before_spec by (try exact Hv; apply time_of_ns_valid; assumption).
+  rewrite (ns_of_time_of_ns (now + cutoff_offset)) by assumption.
+  rewrite (ns_of_time_of_ns (now' + cutoff_offset)) by assumption.
+  intros H. apply andb_true_iff in H. destruct H as [H Hr]. apply andb_true_iff in H. destruct H as [H Hb].
+  rewrite H, Hr. simpl. apply Z.ltb_lt in Hb. rewrite andb_true_r. apply Z.ltb_lt. lia.
+Qed.
+
+Lemma filter_resume : forall A (k' kp : A -> bool) l,
+  (forall o, kp o = false -> k' o = false) -> filter k' (filter kp l) = filter k' l.
+Proof.
+  intros A k' kp l H. induction l as [|o l IH]; [reflexivity|]. simpl.
+  destruct (kp o) eqn:Ek; simpl.
+  - destruct (k' o); [f_equal|]; exact IH.
+  - rewrite (H o Ek). exact IH.
+Qed.
+
+Lemma filter_all : forall A (p : A -> bool) l, (forall o, p o = true) -> filter p l = l.
+Proof.
+  intros A p l H. induction l as [|o l IH]; [reflexivity|]. simpl. rewrite H. f_equal. exact IH.
+Qed.
+
+(* The next Trim finishes the job: run after an interrupted one (at the same or a later time,
+   when it is due) it leaves exactly what it would have left without the interruption. *)
+Theorem trim_resume : forall done now now' c, clock_ok now -> clock_ok now' -> now <= now' ->
+  trim_due now' (read_record c) = true ->
+  trim now' (trim_partial done now c) = trim now' c.
+Proof.
+  intros done now now' c Hc Hc' Hle Hdue.
+  destruct (trim_partial_safe done now c Hc) as (H1 & H2 & H3 & H4 & _).
+  unfold trim. rewrite H4, Hdue, H1, H2, H3. f_equal.
+  apply (nth_ext _ _ None None).
+  - unfold trim_subdirs. rewrite !app_length, !map_length, <- !app_length, !firstn_skipn.
+    unfold trim_partial. destruct (trim_due now (read_record c)); [|reflexivity].
+    cbn [subdirs]. rewrite map_length, combine_length, seq_length. lia.
+  - intros i _. unfold trim_subdirs. rewrite !nth_map_firstn_skipn by reflexivity.
+    unfold trim_partial. destruct (trim_due now (read_record c)); [|reflexivity].
+    cbn [subdirs].
+    rewrite (nth_map_combine_seq _ _
+              (fun j x => option_map (filter (fun o => negb (trim_removes (trim_cutoff now) o && done j o
+                                                             && Nat.ltb j (Z.to_nat trim_subdir_count)))) x)
+              None None) by reflexivity.
+    cbn [Nat.add].
+    destruct (nth i (subdirs c) None) as [l|]; [|destruct (Nat.ltb i (Z.to_nat trim_subdir_count)); reflexivity].
+    cbn [option_map].
+    destruct (Nat.ltb i (Z.to_nat trim_subdir_count)) eqn:Ei.
+    + f_equal. unfold trim_subdir. apply filter_resume. intros o Hk.
+      apply negb_false_iff in Hk. apply andb_true_iff in Hk. destruct Hk as [Hk _].
+      apply andb_true_iff in Hk. destruct Hk as [Hk _].
+      rewrite (trim_removes_mono now now' o Hc Hc' Hle Hk). reflexivity.
+    + f_equal. apply filter_all. intros o. rewrite andb_false_r. reflexivity.
+Qed.
+
 (* ---- lookups and histories *)
+
+(* the exact effect of used on the directory *)
+Definition touch (u : Z) (j : nat) (nm : bytes) (i : nat) (o : obj) : obj :=
+  if Nat.eqb i j && bytes_eqb (oname o) nm then used_obj u o else o.
+
+Lemma subdir_used : forall u j nm c i,
+  subdir i (used u j nm c) = map (touch u j nm i) (subdir i c).
+Proof.
+  intros u j nm c i. unfold used. rewrite subdir_upd. unfold touch.
+  destruct (Nat.eqb i j) eqn:E; simpl.
+  - destruct (present i c) eqn:Ep; [reflexivity|].
+    rewrite absent_empty by exact Ep. reflexivity.
+  - rewrite <- (map_id (subdir i c)) at 1. reflexivity.
+Qed.
+
+Lemma used_frame : forall u j nm c,
+  rootobjs (used u j nm c) = rootobjs c /\ trimtxt (used u j nm c) = trimtxt c /\
+  trimblocked (used u j nm c) = trimblocked c /\ forall i, present i (used u j nm c) = present i c.
+Proof. intros. repeat split. intros i. apply present_upd. Qed.
+
+(* Get refreshes the index file and nothing else *)
+Theorem api_get_touches : forall u ia na c,
+  (forall i, subdir i (api_get u ia na c) = map (touch u ia na i) (subdir i c)) /\
+  rootobjs (api_get u ia na c) = rootobjs c /\ trimtxt (api_get u ia na c) = trimtxt c.
+Proof. intros. split; [intros i; apply subdir_used|split; reflexivity]. Qed.
+
+(* OutputFile refreshes the data file and nothing else *)
+Theorem api_output_file_touches : forall u id nd c,
+  (forall i, subdir i (api_output_file u id nd c) = map (touch u id nd i) (subdir i c)) /\
+  rootobjs (api_output_file u id nd c) = rootobjs c /\ trimtxt (api_output_file u id nd c) = trimtxt c.
+Proof. intros. split; [intros i; apply subdir_used|split; reflexivity]. Qed.
+
+(* GetFile and GetBytes refresh the index file and the data file, and nothing else *)
+Theorem api_lookup_touches : forall u ia na id nd c,
+  (forall i, subdir i (lookup u ia na id nd c) = map (touch u id nd i) (map (touch u ia na i) (subdir i c))) /\
+  rootobjs (lookup u ia na id nd c) = rootobjs c /\ trimtxt (lookup u ia na id nd c) = trimtxt c.
+Proof.
+  intros. split; [|split; reflexivity]. intros i. unfold lookup, api_output_file, api_get.
+  rewrite subdir_used, subdir_used. reflexivity.
+Qed.
 
 Lemma used_keeps_objects : forall u j nm c i o, In o (subdir i c) ->
   exists o', In o' (subdir i (used u j nm c)) /\ oname o' = oname o /\ odata o' = odata o /\
              okind_of o' = okind_of o.
 Proof.
-  intros u j nm c i o Ho. unfold used. rewrite subdir_upd.
-  destruct (Nat.eqb i j && Nat.ltb i (length (subdirs c))).
-  - exists (on_name nm (used_obj u) o). split; [apply in_map; exact Ho|].
-    destruct (used_obj_shape u nm o) as (A & B & C & _). auto.
-  - exists o. auto.
+  intros u j nm c i o Ho. rewrite subdir_used. exists (touch u j nm i o).
+  split; [apply in_map; exact Ho|]. unfold touch.
+  destruct (Nat.eqb i j && bytes_eqb (oname o) nm); [|auto].
+  destruct (used_obj_cases u o) as [->| ->]; simpl; auto.
 Qed.
 
 Theorem lookup_refreshes : forall c u now ia na id nd, dir_ok c -> clock_ok u -> clock_ok now ->
@@ -835,22 +1221,42 @@ Theorem lookup_refreshes : forall c u now ia na id nd, dir_ok c -> clock_ok u ->
      u - mtime_interval <= omtime o' /\ In o' (subdir i (trim now c'))).
 Proof.
   intros c u now ia na id nd Hok Hc Hn Hle c' i n Hwhich. split.
-  - intros o Ho Hname. unfold c', lookup.
+  - intros o Ho Hname. unfold c', lookup, api_output_file, api_get.
     destruct (used_keeps_objects u ia na c i o Ho) as (o1 & H1 & A1 & B1 & C1).
     destruct (used_keeps_objects u id nd _ i o1 H1) as (o2 & H2 & A2 & B2 & C2).
     exists o2. split; [exact H2|]. rewrite A2, A1, B2, B1, C2, C1. auto.
   - intros o' Ho' Hname Hstat.
     assert (HK : K n u stat_ok (subdir i c')).
-    { apply (K_est_lookup_step i n u stat_ok true c (ELookup u ia na id nd)); auto.
-      simpl. destruct Hwhich as [[-> ->]|[-> ->]]; auto. }
+    { apply (K_est_lookup_step true c (ELookup u ia na id nd) i n); auto.
+      - split; [exact Hc|exact I].
+      - simpl. destruct Hwhich as [[-> ->]|[-> ->]]; auto. }
     assert (Hb : u - mtime_interval <= omtime o') by (apply (HK o' Ho'); assumption).
     split; [exact Hb|].
-    assert (Hok' : dir_ok c') by (apply (dir_ok_step true c (ELookup u ia na id nd)); assumption).
+    assert (Hok' : dir_ok c') by (apply (dir_ok_step true c (ELookup u ia na id nd)); [assumption|split; [exact Hc|exact I]]).
     apply subdir_trim_keep; [exact Ho'|].
     rewrite trim_removes_spec; [|assumption|eapply dir_ok_subdir; eassumption].
     destruct consts_rel as (_ & _ & _ & Hoff & _).
     assert (F : (omtime o' <? now + cutoff_offset) = false) by (apply Z.ltb_ge; lia).
     rewrite F. rewrite andb_false_r. reflexivity.
+Qed.
+
+(* Get alone: the index file is refreshed and survives, by the same argument *)
+Theorem get_refreshes_index : forall c u now ia na, dir_ok c -> clock_ok u -> clock_ok now ->
+  now <= u + trim_limit ->
+  forall o', In o' (subdir ia (api_get u ia na c)) -> oname o' = na -> stat_ok (okind_of o') = true ->
+  u - mtime_interval <= omtime o' /\ In o' (subdir ia (trim now (api_get u ia na c))).
+Proof.
+  intros c u now ia na Hok Hc Hn Hle o' Ho' Hname Hstat.
+  assert (HK : K na u stat_ok (subdir ia (api_get u ia na c))).
+  { apply (K_est_lookup_step true c (EGet u ia na) ia na); simpl; auto. split; [exact Hc|exact I]. }
+  assert (Hb : u - mtime_interval <= omtime o') by (apply (HK o' Ho'); assumption).
+  split; [exact Hb|].
+  assert (Hok' : dir_ok (api_get u ia na c)) by (apply (dir_ok_step true c (EGet u ia na)); [assumption|split; [exact Hc|exact I]]).
+  apply subdir_trim_keep; [exact Ho'|].
+  rewrite trim_removes_spec; [|assumption|eapply dir_ok_subdir; eassumption].
+  destruct consts_rel as (_ & _ & _ & Hoff & _).
+  assert (F : (omtime o' <? now + cutoff_offset) = false) by (apply Z.ltb_ge; lia).
+  rewrite F. rewrite andb_false_r. reflexivity.
 Qed.
 
 Lemma run_app : forall r c a b, run r c (a ++ b) = run r (run r c a) b.
@@ -864,31 +1270,10 @@ Proof.
   - apply StronglySorted_inv in H. apply IH. tauto.
 Qed.
 
-(* a use at its own time establishes the bound, in the repaired model *)
-Lemma K_est_step : forall c e i n, dir_ok c -> clock_ok (etime e) -> uses e i n ->
-  K n (etime e) is_file (subdir i (step true c e)).
-Proof.
-  intros c e i n Hok Hc Hu. destruct e.
-  - apply K_est_lookup_step; auto using is_file_stat.
-  - apply K_est_lookup_step; auto using is_file_stat.
-  - apply K_est_store_step; auto using is_file_file.
-  - contradiction.
-Qed.
-
-Lemma K_est_step_asis : forall c e i n, dir_ok c -> clock_ok (etime e) -> uses e i n ->
-  store_refreshes c e i n -> K n (etime e) is_file (subdir i (step false c e)).
-Proof.
-  intros c e i n Hok Hc Hu Hsr. destruct e.
-  - apply K_est_lookup_step; auto using is_file_stat.
-  - apply K_est_lookup_step; auto using is_file_stat.
-  - apply K_est_store_step_asis; auto using is_file_file.
-  - contradiction.
-Qed.
-
 (* The invariant behind trim_keeps_recent, for every history with a monotone clock: the mtime
    of a regular file is never older than (any of its uses) - mtimeInterval. *)
 Theorem lastuse_invariant : forall c h, dir_ok c ->
-  Forall (fun e => clock_ok (etime e)) h ->
+  Forall ev_ok h ->
   StronglySorted (fun a b => etime a <= etime b) h ->
   forall e i n o, In e h -> uses e i n ->
   In o (subdir i (run true c h)) -> oname o = n -> okind_of o = KFile ->
@@ -902,6 +1287,7 @@ Proof.
   assert (HK : K (oname o) (etime e) is_file (subdir i (run true (step true (run true c pre) e) post))).
   { apply K_run.
     - apply (sorted_split _ _ _ _ Hs).
+    - assumption.
     - apply K_est_step; assumption. }
   apply (HK o Ho); [reflexivity|]. rewrite Hk. reflexivity.
 Qed.
@@ -918,7 +1304,7 @@ Qed.
    time u and is there, it is still there after ANY sequence of further stores, lookups and
    trims whose times lie within trimLimit after u. *)
 Theorem history_survives : forall c pre e post i n, dir_ok c ->
-  Forall (fun e' => clock_ok (etime e')) (pre ++ e :: post) -> uses e i n ->
+  Forall ev_ok (pre ++ e :: post) -> uses e i n ->
   (exists o, In o (subdir i (run true c (pre ++ [e]))) /\ oname o = n /\ okind_of o = KFile) ->
   Forall (fun e' => etime e <= etime e' <= etime e + trim_limit) post ->
   exists o, In o (subdir i (run true c (pre ++ e :: post))) /\ oname o = n /\ okind_of o = KFile.
@@ -940,7 +1326,7 @@ Qed.
 (* The same for the code as it stood before the repair of copyFile — provided the use is not
    a store that finds its output already there (then nothing refreshed the data file). *)
 Theorem history_survives_asis_partial : forall c pre e post i n, dir_ok c ->
-  Forall (fun e' => clock_ok (etime e')) (pre ++ e :: post) -> uses e i n ->
+  Forall ev_ok (pre ++ e :: post) -> uses e i n ->
   store_refreshes (run false c pre) e i n ->
   (exists o, In o (subdir i (run false c (pre ++ [e]))) /\ oname o = n /\ okind_of o = KFile) ->
   Forall (fun e' => etime e <= etime e' <= etime e + trim_limit) post ->
@@ -960,7 +1346,64 @@ Proof.
   apply is_file_file. exact Hk.
 Qed.
 
-(* ------------------------------------------------------------------ the refutation for the unrepaired store, and examples *)
+(* ---- the executable form of the history statement *)
+
+Lemma has_file_spec : forall nm l,
+  has_file nm l = true <-> exists o, In o l /\ oname o = nm /\ okind_of o = KFile.
+Proof.
+  intros nm l. unfold has_file. rewrite existsb_exists. split.
+  - intros (o & Ho & H). apply andb_true_iff in H. destruct H as [H1 H2].
+    exists o. split; [exact Ho|]. split; [apply bytes_eqb_eq; exact H1|apply is_file_file; exact H2].
+  - intros (o & Ho & Hn & Hk). exists o. split; [exact Ho|].
+    rewrite Hn, Hk, bytes_eqb_refl. reflexivity.
+Qed.
+
+Lemma used_files_uses : forall e i n, In (i, n) (used_files e) -> uses e i n.
+Proof.
+  intros e i n H. destruct e; simpl in *;
+    repeat (destruct H as [H|H]; [inversion H; subst; auto|]); contradiction.
+Qed.
+
+Definition tracked_ok (c : cdir) (x : nat * bytes * Z) : Prop :=
+  E (snd (fst x)) (snd x) is_file (subdir (fst (fst x)) c).
+
+Lemma holds_from_true : forall h tracked c, dir_ok c ->
+  Forall ev_ok h -> Forall (tracked_ok c) tracked ->
+  holds_from true trim_limit tracked c h = true.
+Proof.
+  induction h as [|e h IH]; intros tracked c Hok Hc Htr; [reflexivity|].
+  inversion Hc as [|? ? Hce Hch]; subst. cbn [holds_from].
+  set (c' := step true c e). set (t := etime e).
+  set (still := filter (fun x => (snd x <=? t) && (t <=? snd x + trim_limit)) tracked).
+  assert (Hok' : dir_ok c') by (apply dir_ok_step; assumption).
+  assert (Hstill : Forall (tracked_ok c') still).
+  { apply Forall_forall. intros x Hx. apply filter_In in Hx. destruct Hx as [Hx Hw].
+    apply andb_true_iff in Hw. destruct Hw as [Hw1 Hw2]. apply Z.leb_le in Hw1. apply Z.leb_le in Hw2.
+    rewrite Forall_forall in Htr. specialize (Htr x Hx). unfold tracked_ok in *.
+    apply E_step; [exact Hce|split; assumption|exact Htr]. }
+  apply andb_true_iff. split.
+  - apply forallb_forall. intros x Hx. rewrite Forall_forall in Hstill. specialize (Hstill x Hx).
+    destruct Hstill as (o & Ho & Hn & Hk & _). apply has_file_spec. exists o.
+    split; [exact Ho|]. split; [exact Hn|apply is_file_file; exact Hk].
+  - apply IH; try assumption. apply Forall_app. split; [|exact Hstill].
+    apply Forall_forall. intros x Hx. apply in_map_iff in Hx. destruct Hx as (p & <- & Hp).
+    apply filter_In in Hp. destruct Hp as [Hp Hf]. destruct p as [i n]. simpl in *.
+    unfold tracked_ok. simpl. apply E_of_K.
+    + apply K_est_step; [exact Hok|exact Hce|]. apply used_files_uses. exact Hp.
+    + apply dir_ok_subdir. exact Hok'.
+    + apply has_file_spec. exact Hf.
+Qed.
+
+(* the executable statement is true of the model on every directory and history *)
+Theorem c13_holds_on_true : forall c h, dir_ok c -> Forall ev_ok h ->
+  c13_holds_on c h = true.
+Proof.
+  intros c h Hok Hc. unfold c13_holds_on.
+  replace stated_limit with trim_limit by (symmetry; apply intervals_as_stated).
+  apply holds_from_true; [assumption|assumption|constructor].
+Qed.
+
+(* ------------------------------------------------------------------ refutations and examples *)
 
 Definition ex_day : Z := 24 * 3600 * nano.
 Definition ex_xa : bytes := [x78; x2d; x61].   (* "x-a" *)
@@ -969,34 +1412,65 @@ Definition ex_I : bytes := [x49].
 Definition ex_D : bytes := [x44].
 
 (* an output stored on day 1 and not looked up since; on day 10 it is stored again *)
-Definition ex_stale : cdir := mkDir [[mkObj ex_xd ex_day ex_D KFile]] [] None.
-Definition ex_restore : event := EStore (10 * ex_day) 0 ex_xa ex_I 0 ex_xd ex_D.
+Definition ex_stale : cdir := mkDir [Some [mkObj ex_xd ex_day ex_D KFile]] [] None false.
+Definition ex_restore : event := EStore (10 * ex_day) (10 * ex_day) 0 ex_xa ex_I 0 ex_xd ex_D.
 
 Ltac decide_range := vm_compute; split; first [reflexivity | discriminate | (intro; discriminate)].
+Ltac decide_ev := vm_compute; repeat split; first [reflexivity | discriminate | (intro; discriminate) | exact I].
 
 (* With the store as the code had it, history_survives is false: the data file stored at
    day 10 is removed by a Trim at the same instant (the index file survives). *)
 Theorem store_asis_refuted : exists c pre e post i n,
-  dir_ok c /\ Forall (fun e' => clock_ok (etime e')) (pre ++ e :: post) /\ uses e i n /\
+  dir_ok c /\ Forall ev_ok (pre ++ e :: post) /\ uses e i n /\
   (exists o, In o (subdir i (run false c (pre ++ [e]))) /\ oname o = n /\ okind_of o = KFile) /\
   Forall (fun e' => etime e <= etime e' <= etime e + trim_limit) post /\
   ~ (exists o, In o (subdir i (run false c (pre ++ e :: post))) /\ oname o = n /\ okind_of o = KFile).
 Proof.
   exists ex_stale, [], ex_restore, [ETrim (10 * ex_day)], 0%nat, ex_xd.
   split; [|split; [|split; [|split; [|split]]]].
-  - intros l o Hl Ho. destruct Hl as [<-|[]]. destruct Ho as [<-|[]]. unfold ns_ok. decide_range.
-  - repeat (apply Forall_cons; [simpl; decide_range|]); apply Forall_nil.
+  - intros l o Hl Ho. destruct Hl as [Hl|[]]. inversion Hl; subst. destruct Ho as [<-|[]]. unfold ns_ok. decide_range.
+  - repeat (apply Forall_cons; [decide_ev|]); apply Forall_nil.
   - right. split; reflexivity.
   - exists (mkObj ex_xd ex_day ex_D KFile). split; [vm_compute; left; reflexivity|split; reflexivity].
   - repeat (apply Forall_cons; [simpl; decide_range|]); apply Forall_nil.
   - intros (o & Ho & Hn & _). vm_compute in Ho. destruct Ho as [<-|[]]. discriminate Hn.
 Qed.
 
-(* the repaired store keeps it (an instance of history_survives) *)
+(* the executable statement finds it, and is true for the repaired store *)
+Example ex_holds_on :
+  holds_from false stated_limit [] ex_stale [ex_restore; ETrim (10 * ex_day)] = false /\
+  c13_holds_on ex_stale [ex_restore; ETrim (10 * ex_day)] = true.
+Proof. vm_compute. split; reflexivity. Qed.
+
 Example ex_restore_fixed :
   subdir 0 (run true ex_stale [ex_restore; ETrim (10 * ex_day)]) =
   [mkObj ex_xd (10 * ex_day) ex_D KFile; mkObj ex_xa (10 * ex_day) ex_I KFile].
 Proof. vm_compute. reflexivity. Qed.
+
+(* Get alone does not protect the data file: an entry stored on day 1, found by Get on day 5
+   and not otherwise used, loses its output to a trim on day 7 while the index entry
+   survives.  (Get's contract says so: "finding an output ID does not guarantee that the saved
+   file for that output ID is still available"; GetFile/GetBytes/OutputFile refresh it.) *)
+Definition ex_entry : cdir :=
+  mkDir [Some [mkObj ex_xa ex_day ex_I KFile; mkObj ex_xd ex_day ex_D KFile]] [] None false.
+
+Theorem get_only_data_not_protected : exists c u now ia na id nd,
+  dir_ok c /\ clock_ok u /\ clock_ok now /\ u <= now <= u + trim_limit /\
+  has_file na (subdir ia c) = true /\ has_file nd (subdir id c) = true /\
+  let c' := trim now (api_get u ia na c) in
+  has_file na (subdir ia c') = true /\ has_file nd (subdir id c') = false.
+Proof.
+  exists ex_entry, (5 * ex_day), (7 * ex_day), 0%nat, ex_xa, 0%nat, ex_xd.
+  split; [|split; [|split; [|split; [|split; [|split]]]]].
+  - intros l o Hl Ho. destruct Hl as [Hl|[]]. inversion Hl; subst.
+    destruct Ho as [<-|[<-|[]]]; unfold ns_ok; decide_range.
+  - decide_range.
+  - decide_range.
+  - decide_range.
+  - vm_compute. reflexivity.
+  - vm_compute. reflexivity.
+  - vm_compute. split; reflexivity.
+Qed.
 
 Definition ex_now : Z := 1800000000123456789.
 Definition ex_sec : Z := 1800000000.
@@ -1029,49 +1503,82 @@ Proof.
 Qed.
 
 (* a population around the cutoff: entries exactly at, 1 ns before and after now - trimLimit -
-   mtimeInterval; foreign names; a non-empty directory and a dangling link with entry names *)
+   mtimeInterval; foreign names; a non-empty directory, a dangling link and an old link to a
+   file with entry names; a missing subdirectory *)
 Definition ex_cut : Z := ex_now - trim_limit - mtime_interval.
 Definition ex_pop : cdir :=
-  mkDir [[mkObj ex_xa (ex_cut - 1) ex_I KFile; mkObj ex_xd ex_cut ex_D KFile;
-          mkObj [x52] 0 [] KFile (* "R", foreign *); mkObj [x2d; x61] 0 [] KFullDir;
-          mkObj [x2d; x64] 0 [] KDangling; mkObj [x71; x2d; x64] 5 [] KEmptyDir];
-         [mkObj ex_xa 0 ex_I KFile]]
+  mkDir [Some [mkObj ex_xa (ex_cut - 1) ex_I KFile; mkObj ex_xd ex_cut ex_D KFile;
+               mkObj [x52] 0 [] KFile (* "R", foreign *); mkObj [x2d; x61] 0 [] KFullDir;
+               mkObj [x2d; x64] 0 [] KDangling; mkObj [x71; x2d; x64] 5 [] KEmptyDir;
+               mkObj [x6c; x2d; x64] 7 ex_D KLink];
+         None;
+         Some [mkObj ex_xa 0 ex_I KFile]]
         [mkObj ex_xa 0 [] KFile (* an old "x-a" in the cache root is not an entry *)]
-        (Some (decimal (ex_sec - 86400))).
+        (Some (decimal (ex_sec - 86400))) false.
 
 Example ex_pop_trim :
   trim ex_now ex_pop =
-  mkDir [[mkObj ex_xd ex_cut ex_D KFile; mkObj [x52] 0 [] KFile; mkObj [x2d; x61] 0 [] KFullDir;
-          mkObj [x2d; x64] 0 [] KDangling];
-         []]
+  mkDir [Some [mkObj ex_xd ex_cut ex_D KFile; mkObj [x52] 0 [] KFile; mkObj [x2d; x61] 0 [] KFullDir;
+               mkObj [x2d; x64] 0 [] KDangling];
+         None;
+         Some []]
         [mkObj ex_xa 0 [] KFile]
-        (Some (decimal ex_sec)).
-Proof. vm_compute. reflexivity. Qed.
+        (Some (decimal ex_sec)) false
+  /\ trim_err ex_now ex_pop = false.
+Proof. vm_compute. split; reflexivity. Qed.
 
-Example ex_pop_ok : dir_ok ex_pop /\ clock_ok ex_now /\ record_stale ex_now (trimtxt ex_pop).
+Definition ex_pop_blocked : cdir := mkDir (subdirs ex_pop) (rootobjs ex_pop) None true.
+
+(* trim.txt is a directory: the scan runs, Trim returns the write error, and a second Trim
+   runs again *)
+Example ex_blocked :
+  subdirs (trim ex_now ex_pop_blocked) = subdirs (trim ex_now ex_pop) /\
+  trim_err ex_now ex_pop_blocked = true /\
+  trimtxt (trim ex_now ex_pop_blocked) = None /\
+  trim_due (ex_now + 1) (read_record (trim ex_now ex_pop_blocked)) = true.
+Proof. vm_compute. repeat split; reflexivity. Qed.
+
+(* interrupted after the first subdirectory / after all of them: the record is unchanged and
+   the next Trim yields the full result *)
+Example ex_prefix :
+  subdir 0 (trim_prefix 1 ex_now ex_pop) = subdir 0 (trim ex_now ex_pop) /\
+  subdir 2 (trim_prefix 1 ex_now ex_pop) = subdir 2 ex_pop /\
+  trimtxt (trim_prefix 256 ex_now ex_pop) = trimtxt ex_pop /\
+  trim ex_now (trim_prefix 1 ex_now ex_pop) = trim ex_now ex_pop.
+Proof. vm_compute. repeat split; reflexivity. Qed.
+
+Example ex_pop_ok : dir_ok ex_pop /\ clock_ok ex_now /\ record_stale ex_now (read_record ex_pop).
 Proof.
   split; [|split].
   - intros l o Hl Ho. unfold ns_ok.
-    repeat (destruct Hl as [<-|Hl]; [repeat (destruct Ho as [<-|Ho]; [decide_range|]); destruct Ho|]).
+    repeat (destruct Hl as [Hl|Hl]; [try discriminate Hl; inversion Hl; subst;
+                                     repeat (destruct Ho as [<-|Ho]; [decide_range|]); destruct Ho|]).
     destruct Hl.
   - decide_range.
   - right. eexists. split; [reflexivity|]. right. exists (ex_sec - 86400).
     split; [vm_compute; reflexivity|]. left. vm_compute. discriminate.
 Qed.
 
+(* a Put whose index subdirectory is missing writes the data file only *)
+Example ex_store_data_only :
+  run true (mkDir [None; Some []] [] None false)
+      [EStoreData 5 5 1 ex_xd ex_D; EStore 6 6 0 ex_xa ex_I 1 ex_xd ex_D] =
+  mkDir [None; Some [mkObj ex_xd 5 ex_D KFile]] [] None false.
+Proof. vm_compute. reflexivity. Qed.
+
 (* a history: store at day 0, lookup at day 4, trims at day 5 and day 8 keep the entry; so does
    a trim at day 9 + 1 h (mtime = cutoff); one nanosecond later it is removed *)
 Definition ex_t0 : Z := 1800000000000000000.
 Definition ex_hist : list event :=
-  [EStore ex_t0 0 ex_xa ex_I 0 ex_xd ex_D;
+  [EStore ex_t0 ex_t0 0 ex_xa ex_I 0 ex_xd ex_D;
    ELookup (ex_t0 + 4 * ex_day) 0 ex_xa 0 ex_xd;
    ETrim (ex_t0 + 5 * ex_day);
    ETrim (ex_t0 + 8 * ex_day)].
 
 Example ex_history :
-  subdir 0 (run true (mkDir [[]] [] None) (ex_hist ++ [ETrim (ex_t0 + 9 * ex_day + mtime_interval)])) =
-    [mkObj ex_xa (ex_t0 + 4 * ex_day) ex_I KFile; mkObj ex_xd (ex_t0 + 4 * ex_day) ex_D KFile]
-  /\ subdir 0 (run true (mkDir [[]] [] None) (ex_hist ++ [ETrim (ex_t0 + 9 * ex_day + mtime_interval + 1)])) = [].
+  subdir 0 (run true (mkDir [Some []] [] None false) (ex_hist ++ [ETrim (ex_t0 + 9 * ex_day + mtime_interval)])) =
+    [mkObj ex_xd (ex_t0 + 4 * ex_day) ex_D KFile; mkObj ex_xa (ex_t0 + 4 * ex_day) ex_I KFile]
+  /\ subdir 0 (run true (mkDir [Some []] [] None false) (ex_hist ++ [ETrim (ex_t0 + 9 * ex_day + mtime_interval + 1)])) = [].
 Proof. vm_compute. split; reflexivity. Qed.
 
 Example ex_used :
